@@ -4,16 +4,20 @@
          one_run_decides_every_schedule that one run speaks for every schedule).
          bit 4 (16): the model and the implementation disagree on: did every reader finish, what did each reader receive, did any
          goroutine remain; or the description is not well formed / its capacities do not follow the rules of the Go code.
+   KShape: a REAL indicator (Vwap, Mfm, Dema, Apo) run to quiescence against the network Kahn/Patterns.v gives for it, for the same
+         periods, input lengths (equal or not) and input capacity: outputs closed, goroutines left, number of values delivered
+         (bit 4, as for KNet). This ties the hand-written networks of Patterns.v, and the EMA-as-Skip abstraction, to the code.
    KFlow: an indicator or strategy run under a pacing / buffering / GOMAXPROCS variant (a ValRun case):
          bit 0: values differ from the regenerated model (so they are the same for every variant);
          bit 2: an output never closed, or a goroutine of the pipeline remained, although the configuration is admissible;
          bit 5 (32): signature only: the inputs of that run had different lengths. *)
 From Coq Require Import Floats ZArith Bool List.
 Import ListNotations.
-From Verif Require Import Base.FloatUtil Kahn.Kahn Kahn.Helpers Run.FlowRun Run.ValRun.
+From Verif Require Import Base.FloatUtil Kahn.Kahn Kahn.Helpers Kahn.HelpersProofs Kahn.Patterns Run.FlowRun Run.ValRun.
 
 Inductive case :=
 | KNet (d : desc) (fuel : nat) (readers_finished no_goroutine_left : bool) (received_by_readers : list (list nat))
+| KShape (d : desc) (fuel : nat) (outputs_closed no_goroutine_left : bool) (output_lengths : list nat)
 | KFlow (c : FlowRun.case).
 
 Definition lists_eqb (a b : list (list nat)) : bool := list_eqb (list_eqb Nat.eqb) a b.
@@ -26,6 +30,12 @@ Definition check03 (c : case) : nat :=
            if negb (terminalb t) then 16
            else if Bool.eqb (sinks_done d t) fin && Bool.eqb (no_leak t) clean
                    && (if fin then lists_eqb (received d t) recv else true) then 0 else 16
+  | KShape d fuel fin clean lens =>
+      if negb (wellformed d && caps_ok d) then 16
+      else let t := run fuel (build d) in
+           if negb (terminalb t) then 16
+           else if Bool.eqb (sinks_done d t) fin && Bool.eqb (no_leak t) clean
+                   && (if fin then list_eqb Nat.eqb (map (@List.length nat) (received d t)) lens else true) then 0 else 16
   | KFlow c' =>
       let r := ValRun.check c' in
       (* signature for the known findings: the run that did not finish had input channels of different lengths *)
